@@ -20,6 +20,7 @@ import (
 	"strings"
 	"sync"
 	"sync/atomic"
+	"time"
 
 	"github.com/ipfs/boxo/blockservice"
 	cid "github.com/ipfs/go-cid"
@@ -34,6 +35,7 @@ import (
 	coreblock "github.com/sourcenetwork/defradb/internal/core/block"
 	"github.com/sourcenetwork/defradb/internal/datastore"
 	"github.com/sourcenetwork/defradb/internal/db"
+	"github.com/sourcenetwork/defradb/internal/encryption"
 	defranet "github.com/sourcenetwork/defradb/net"
 
 	"github.com/sourcenetwork/defradb/internal/verifh/crdtx"
@@ -64,6 +66,18 @@ func newC12Node(signing bool) (*c12Node, error) {
 	if err != nil {
 		return nil, err
 	}
+	// a merge that meets an encrypted block asks for keys and waits: answer "no key" at once
+	ksub, err := d.Events().Subscribe(encryption.RequestKeysEventName)
+	if err != nil {
+		return nil, err
+	}
+	go func() {
+		for m := range ksub.Message() {
+			if req, ok := m.Data.(encryption.RequestKeysEvent); ok {
+				req.Resp <- encryption.Result{}
+			}
+		}
+	}()
 	return &c12Node{st: st, db: d, base: st.Snapshot(), colID: cols[0].CollectionID}, nil
 }
 
@@ -496,7 +510,11 @@ func c12Job(ctx context.Context, r *rep.Run, st *c12Stats, idents []identity.Ful
 				if err != nil {
 					return err
 				}
-				sc := coreblock.GetLinkPrototype().BuildLink(sraw).(cidlink.Link)
+				scid, err := crdtx.CidOfBlock(sraw)
+				if err != nil {
+					return err
+				}
+				sc := cidlink.Link{Cid: scid}
 				putRaw(a.st, crdtx.BlockKey(sc.Cid), sraw)
 				t.Block.Signature = &sc
 			}
@@ -505,7 +523,10 @@ func c12Job(ctx context.Context, r *rep.Run, st *c12Stats, idents []identity.Ful
 				// a change that cannot even be encoded is not a forged commit
 				continue
 			}
-			tc := coreblock.GetLinkPrototype().BuildLink(traw).(cidlink.Link).Cid
+			tc, err := crdtx.CidOfBlock(traw)
+			if err != nil {
+				return err
+			}
 			if tc == b.c && t.Sig == nil {
 				continue // the change did not change the block
 			}
@@ -537,7 +558,16 @@ func c12Job(ctx context.Context, r *rep.Run, st *c12Stats, idents []identity.Ful
 			}
 			rc.st.Restore(prepared)
 			atomic.AddInt64(&st.received, 1)
-			derr := deliver(rc, tsn, tc)
+			done := make(chan error, 1)
+			go func() { done <- deliver(rc, tsn, tc) }()
+			var derr error
+			select {
+			case derr = <-done:
+			case <-time.After(world.HangTimeout):
+				r.Violation(rep.Violation{Fingerprint: "C12:forged-commit-hangs-the-receiver:" + t.Kind,
+					Summary: fmt.Sprintf("%s %s composite %s, %s: the receive path did not return within %v", keyType, h.Name, b.c, t.Kind, world.HangTimeout), Replay: info})
+				return nil // this receiver is lost to the hanging merge
+			}
 			after := c12Dump(rc)
 			if derr == nil || after != before {
 				r.Violation(rep.Violation{Fingerprint: "C12:forged-commit-accepted:" + t.Kind,
